@@ -15,8 +15,8 @@ VROOT = os.path.dirname(os.path.dirname(os.path.abspath(__file__)))
 REPO = os.path.realpath(os.path.join(VROOT, "petgraph-src"))
 
 OWNERS = [
-    ("src/graph_impl/mod.rs", ["C01", "C06"]),
-    ("src/graph_impl/stable_graph/mod.rs", ["C02", "C06"]),
+    ("src/graph_impl/mod.rs", ["C01", "C06", "C17"]),   # link_edges (serde fix-up) lives here
+    ("src/graph_impl/stable_graph/mod.rs", ["C02", "C06", "C17"]),
     ("src/graphmap.rs", ["C03", "C06"]),
     ("src/matrix_graph.rs", ["C04", "C06"]),
     ("src/csr.rs", ["C05", "C06"]),
@@ -106,7 +106,7 @@ def run_check(cid):
     os.makedirs(env["VERIF_EVIDENCE_DIR"], exist_ok=True)
     t = time.time()
     try:
-        p = subprocess.run(["./check", cid, "--tier", "quick"], cwd=VROOT, env=env, capture_output=True, text=True, timeout=900)
+        p = subprocess.run(["./check", cid, "--tier", "quick"], cwd=VROOT, env=env, capture_output=True, text=True, timeout=420)
         rc, out = p.returncode, p.stdout + p.stderr
     except subprocess.TimeoutExpired:
         rc, out = 124, "timeout"
@@ -138,7 +138,15 @@ def main():
         for c in cands:
             todo.append((rel, owners, path, lines, c))
     todo = [t for k, t in enumerate(todo) if k % shard[1] == shard[0]]
-    print("mutants to run:", len(todo), flush=True)
+    done = set()
+    if os.path.exists(outp):
+        for l in open(outp):
+            try:
+                d = json.loads(l); done.add((d["file"], d["line"], d["op"]))
+            except Exception:
+                pass
+    todo = [t for t in todo if (t[0], t[4][0] + 1, t[4][1]) not in done]
+    print("mutants to run:", len(todo), "(already recorded: %d)" % len(done), flush=True)
     with open(outp, "a") as log:
         for (rel, owners, path, lines, (i, op, new)) in todo:
             mutated = list(lines)
